@@ -154,6 +154,40 @@ fn os_string_from_bytes(bytes: Vec<u8>) -> OsString {
     String::from_utf8_lossy(&bytes).into_owned().into()
 }
 
+/// `arg` with every occurrence of `pattern` replaced by `with`: on Unix the
+/// replacement is done on the bytes, so nothing else is altered.
+#[cfg(unix)]
+fn replace_in_os_str(arg: &OsStr, pattern: &str, with: &OsStr) -> OsString {
+    use std::os::unix::ffi::OsStrExt;
+    if pattern.is_empty() {
+        return OsString::from(
+            arg.to_string_lossy()
+                .replace(pattern, &with.to_string_lossy()),
+        );
+    }
+    let (arg, pattern, with) = (arg.as_bytes(), pattern.as_bytes(), with.as_bytes());
+    let mut replaced = Vec::with_capacity(arg.len());
+    let mut i = 0;
+    while i < arg.len() {
+        if arg[i..].starts_with(pattern) {
+            replaced.extend_from_slice(with);
+            i += pattern.len();
+        } else {
+            replaced.push(arg[i]);
+            i += 1;
+        }
+    }
+    os_string_from_bytes(replaced)
+}
+
+#[cfg(not(unix))]
+fn replace_in_os_str(arg: &OsStr, pattern: &str, with: &OsStr) -> OsString {
+    OsString::from(
+        arg.to_string_lossy()
+            .replace(pattern, &with.to_string_lossy()),
+    )
+}
+
 #[cfg(unix)]
 fn count_osstr_chars_for_exec(s: &OsStr) -> usize {
     use std::os::unix::ffi::OsStrExt;
@@ -486,13 +520,9 @@ impl CommandBuilder<'_> {
             let Some(first_extra_arg) = self.extra_args.first() else {
                 return Ok(CommandResult::Success);
             };
-            let replacement = first_extra_arg.to_string_lossy();
             let initial_args: Vec<OsString> = initial_args
                 .iter()
-                .map(|arg| {
-                    let arg_str = arg.to_string_lossy();
-                    OsString::from(arg_str.replace(replace_str, &replacement))
-                })
+                .map(|arg| replace_in_os_str(arg, replace_str, first_extra_arg))
                 .collect();
 
             command
